@@ -21,7 +21,7 @@ CHECKS = {
             "content carries unique text and binary markers; after quiescence the checker requires exactly one delivery per "
             "intended recipient with identical protobuf content, sender and group identity, none elsewhere, no delivery without "
             "a sent message, the recipient's delivery receipt at the sender, re-acknowledged duplicates, a retry receipt after "
-            "corruption, and no marker in any frame that left a client. 420 runs quick / 25 000 thorough; schedules sampled. A plaintext frame is attributed to the known recipient-without-keys mechanism by what the server double observed (its directory had no keys for the recipient when the sender asked), not by the scenario. Message kinds include replies quoting an earlier message; the leading field of every delivered message (text, caption url, name, quoted text) is read from the entity itself and compared with what the sender wrote, independently of the library's converter. In a quarter of the framed runs every send happens in its own application thread while the scheduler keeps delivering to the same client (yield injection in the axolotl layers, manager and stores). A third of the accounts run with the identity auto-trust option on (nobody changes identity in these runs); one restart in four finds the key store locked at first. In 30% of the runs the server double relays group messages with the sender-key part before the pairwise part. Runs that do not become quiet within 6 000 scheduler steps (quiet ones need about 500) are livelock violations, with the number of retry receipts seen; 30% of the runs relay 1:1 retry receipts with an empty participant attribute. Overtaken cases (race placement): an application thread that has encrypted a group message is held before it hands the stanza down while the scheduler serves a retry receipt for the sender's first, damaged group message (a sender key re-distribution at a later chain iteration); all messages must still be shown exactly once.",
+            "corruption, and no marker in any frame that left a client. 420 runs quick / 25 000 thorough; schedules sampled. A plaintext frame is attributed to the known recipient-without-keys mechanism by what the server double observed (its directory had no keys for the recipient when the sender asked), not by the scenario. Message kinds include replies quoting an earlier message; the leading field of every delivered message (text, caption url, name, quoted text) is read from the entity itself and compared with what the sender wrote, independently of the library's converter. In a quarter of the framed runs every send happens in its own application thread while the scheduler keeps delivering to the same client (yield injection in the axolotl layers, manager and stores). A third of the accounts run with the identity auto-trust option on (nobody changes identity in these runs); one restart in four finds the key store locked at first. In 30% of the runs the server double relays group messages with the sender-key part before the pairwise part. Runs that do not become quiet within 6 000 scheduler steps (quiet ones need about 500) are livelock violations, with the number of retry receipts seen; 30% of the runs relay 1:1 retry receipts with an empty participant attribute. Overtaken cases (race placement): an application thread that has encrypted a group message is held before it hands the stanza down while the scheduler serves a retry receipt for the sender's first, damaged group message (a sender key re-distribution at a later chain iteration); all messages must still be shown exactly once. Twin-ids cases: two application threads of one account compose (which assigns the id) and send a message each, the first held inside the id generator while the second composes and sends, either may be damaged or duplicated in transit; the ids must differ and every message is shown once with its receipt.",
             "Trusted: the server double (our reading of the server's routing), python-axolotl (padding shim). Framed wiring without noise/segments (C04/C11 cover those).",
             "DESIGN.md 4/C03"),
     "C01": ("exploration",
